@@ -560,6 +560,45 @@ func c12(r *Report) {
 			fieldWritersRule(r, "fifo", "Group", fld, map[string]bool{"(*M/fifo.Group).AddRequestModifier": true, "(*M/fifo.Group).AddResponseModifier": true, "M/fifo.NewGroup": true}, "children are added to (or spliced into) the group without going through AddRequestModifier / AddResponseModifier: a nested group's children end up under the outer group's error policy")
 		}
 
+		// the configured policy reaches the group: aggregation is switched on exactly when the
+		// node says so
+		if gj := r.W.Fn("fifo", "groupFromJSON"); gj != nil && gj.Blocks != nil {
+			r.Touch(gj)
+			isAgg := func(v ssa.Value) bool {
+				ld, ok := v.(*ssa.UnOp)
+				if !ok || ld.Op != token.MUL {
+					return false
+				}
+				fa, ok := ld.X.(*ssa.FieldAddr)
+				return ok && fieldObj(fa).Name() == "AggregateErrors"
+			}
+			okAgg := false
+			for _, c := range plainCalls(gj, "(*M/fifo.Group).SetAggregateErrors") {
+				arg := c.Call.Args[1]
+				if isAgg(arg) {
+					okAgg = true // SetAggregateErrors(msg.AggregateErrors)
+				}
+				if k, isK := constBool(arg); isK && k {
+					for _, ce := range ctrlEdges(c.Block()) {
+						cond := ce.If.Cond
+						taken := ce.Taken
+						if u, isU := cond.(*ssa.UnOp); isU && u.Op == token.NOT {
+							cond, taken = u.X, !taken
+						}
+						if isAgg(cond) && taken {
+							okAgg = true
+						}
+					}
+				}
+			}
+			r.Decide("path", "M/fifo.groupFromJSON: the group aggregates errors exactly when the node asks for it", okAgg, "SetAggregateErrors(true) on the true edge of msg.AggregateErrors (or SetAggregateErrors(msg.AggregateErrors))", "the aggregateErrors key of a fifo.Group node does not reach the group (or reaches it inverted): a group configured to aggregate stops at the first error, or the other way round", gj.Pos())
+			if sa := r.W.Fn("fifo", "Group.SetAggregateErrors"); sa != nil {
+				setterStoresRule(r, "fifo", "Group", "SetAggregateErrors", "aggregateErrors", "the error policy of a group cannot be changed")
+			}
+		} else {
+			r.Undecided("M/fifo.groupFromJSON", "UNRESOLVED")
+		}
+
 		grp := w.Named("fifo", "Group")
 		for _, side := range []struct{ add, mod, field string }{{"AddRequestModifier", "ModifyRequest", "reqmods"}, {"AddResponseModifier", "ModifyResponse", "resmods"}} {
 			add := w.method(grp, side.add)
